@@ -170,6 +170,7 @@ func (r *RibEntry) updateOwnNexthopsEnc() {
 
 // AddRoute adds or updates a RIB entry for the specified prefix.
 func (r *RibTable) AddEncRoute(name enc.Name, route *Route) {
+	verifBeforeMLock(&r.mutex, "rib.lock")
 	r.mutex.Lock()
 	defer r.mutex.Unlock()
 
@@ -196,6 +197,7 @@ func (r *RibTable) AddEncRoute(name enc.Name, route *Route) {
 
 // GetAllEntries returns all routes in the RIB.
 func (r *RibTable) GetAllEntries() []*RibEntry {
+	verifBeforeMLock(&r.mutex, "rib.lock")
 	r.mutex.Lock()
 	defer r.mutex.Unlock()
 
@@ -226,6 +228,7 @@ func (r *RibEntry) GetRoutes() []*Route {
 
 // RemoveRoute removes the specified route from the specified prefix.
 func (r *RibTable) RemoveRouteEnc(name enc.Name, faceID uint64, origin uint64) {
+	verifBeforeMLock(&r.mutex, "rib.lock")
 	r.mutex.Lock()
 	defer r.mutex.Unlock()
 
@@ -248,6 +251,7 @@ func (r *RibTable) RemoveRouteEnc(name enc.Name, faceID uint64, origin uint64) {
 
 // CleanUpFace removes the specified face from all entries. Used for clean-up after a face is destroyed.
 func (r *RibTable) CleanUpFace(faceId uint64) {
+	verifBeforeMLock(&r.mutex, "rib.lock")
 	r.mutex.Lock()
 	defer r.mutex.Unlock()
 
